@@ -49,6 +49,18 @@ def class_universe():  # noqa: C901
     import typing  # noqa: PLC0415
 
     U['typing-namedtuple'] = typing.NamedTuple('TNT', [('x', int), ('y', int)])
+    # classes for which cls(*xs), cls._make(xs) and tuple.__new__(cls, xs) are three different things
+    U['namedtuple-converting-new'] = type('NTC', (NT,), {
+        '__slots__': (), '__new__': lambda cls, a, b: NT.__new__(cls, b, a)})
+
+    def _validating_new(cls, a, b):
+        if a is not b and not (isinstance(a, int) and isinstance(b, int) and a <= b):
+            raise ValueError('a <= b required')
+        return NT.__new__(cls, a, b)
+
+    U['namedtuple-validating-new'] = type('NTV', (NT,), {'__slots__': (), '__new__': _validating_new})
+    U['namedtuple-own-_make'] = type('NTM', (NT,), {
+        '__slots__': (), '_make': classmethod(lambda cls, it: NT.__new__(cls, *reversed(list(it))))})
 
     def lookalike(name, **attrs):
         base = {'_fields': ('a', 'b'), '_make': classmethod(lambda cls, it: cls(it)),
@@ -181,10 +193,52 @@ def part_classes(ctx):
                 if r[1] != want:
                     ctx.violation('flatten-vs-twin', f'{PROP}:flatten-vs-twin:{name}', {'class': name},
                                   f'flatten kind {r[1]} but twins say {want}')
+        # one-level flattening of the instance through the Python registry vs the engine (children, type, kind,
+        # entries, and the unflatten function's RESULT for the same and for fresh children)
+        for inst in instances_of(name, cls):
+            for nil in (False, True):
+                instance_one_level(ctx, name, inst, nil)
     for i, x in enumerate([5, 'a', None, (1, 2), [1], object(), 3.5, len]):
         if ctx.mine(i):
             compare_funcs(ctx, f'non-class:{type(x).__name__}', x,
                           lambda fname, label: f'{PROP}:twin:{fname}:{label}')
+
+
+def instance_one_level(ctx, name, inst, nil):
+    ctx.count()
+    case = {'class': name, 'none_is_leaf': nil, 'op': 'one-level'}
+    eng = outcome_of(lambda: optree.tree_flatten(inst, is_leaf=lambda x: x is not inst, none_is_leaf=nil))
+    tw = outcome_of(lambda: optree.tree_flatten_one_level(inst, none_is_leaf=nil))
+    if eng[0] != 'ok':
+        return
+    kids, spec = eng[1]
+    if spec.is_leaf():
+        if tw != ('exc', 'ValueError'):
+            ctx.violation('one-level-instance', f'{PROP}:one-level-instance:leaf-accepted', case, repr(tw)[:300])
+        return
+    if tw[0] != 'ok':
+        ctx.violation('one-level-instance', f'{PROP}:one-level-instance:twin-raises', case, repr(tw))
+        return
+    out = tw[1]
+    problems = []
+    if len(out.children) != len(kids) or any(a is not b for a, b in zip(out.children, kids)):
+        problems.append(f'children {out.children!r} vs engine {kids!r}')
+    if out.type is not spec.type or out.kind != spec.kind:
+        problems.append(f'type/kind {out.type} {out.kind} vs {spec.type} {spec.kind}')
+    if tuple(out.entries) != tuple(spec.entries()):
+        problems.append(f'entries {out.entries!r} vs {spec.entries()!r}')
+    for label, children in (('same', list(kids)), ('reversed', list(reversed(kids))), ('fresh', [object() for _ in kids])):
+        def shape(r):
+            if r[0] != 'ok':
+                return r
+            v = r[1]
+            return ('ok', type(v), tuple(id(x) for x in v) if isinstance(v, tuple) else repr(v))
+        r1 = shape(outcome_of(lambda: out.unflatten_func(out.metadata, list(children))))
+        r2 = shape(outcome_of(lambda: spec.unflatten(list(children))))
+        if r1 != r2:
+            problems.append(f'unflatten[{label}] twin {r1!r} vs engine {r2!r}')
+    for p in problems:
+        ctx.violation('one-level-instance', f'{PROP}:one-level-instance:{p.split(" ")[0]}', case, f'{name}: {p}')
 
 
 # =============================================================================================
